@@ -108,7 +108,7 @@ def amt_lines(chk):
     quick = chk.tier == "quick"
     vals = ["0", "1", "0.1", "0.00000001", "0.000000001", "0.0000000100", "1.23456789", "1.234567891", "1.234567890", "20999999.99999999", "21000000", "92233720368.54775807",
             "0.5", "-0.5", "-1", "-0", "01", "00.1", "1.", ".5", "", "abc", "1,2", "1.2.3", " 1", "1 ", "+1", "0x10", "0.12345678", "12345678.12345678",
-            "1000000.00000001", "99999999.99999999", "9999999999.99999999", "0.99999999", "0.09999999", "10", "100", "0.10", "0.100000000000", "123456789012"]
+            "1000", "2000", "21000", "123000.0", "1000.00000000", "10000", "5000", "9000.5", "1000.00000001", "100000", "7000000", "1000000.00000001", "99999999.99999999", "9999999999.99999999", "0.99999999", "0.09999999", "10", "100", "0.10", "0.100000000000", "123456789012"]
     for _ in range(150 if quick else 3000):
         ip = str(rng.randrange(0, 10 ** rng.randrange(1, 10)))
         fp = "".join(rng.choice("0123456789") for _ in range(rng.randrange(0, 11)))
